@@ -96,7 +96,7 @@ def stmt_events(node, local_names, nested_out):
         skip = {node.name} | {a.arg for a in node.args.args}
         for x, poss in inner["live_entry"]:
             if x not in skip:
-                ev.append(("use", x, poss))
+                ev.append(("use", x, poss, "nested"))
         ev.append(("assign", node.name, ("lit", "fun:" + str(node.ty))))
     elif isinstance(node, ast.Assign):
         if len(node.targets) != 1:
@@ -152,7 +152,11 @@ def block_stats(events):
     for e in events:
         if e[0] == "use":
             if e[1] not in assigned and e[1] not in used:
-                used[e[1]] = e[2]
+                used[e[1]] = list(e[2])
+            elif e[1] not in assigned and len(e) > 3 and used.get(e[1]) is not None:
+                # visit_NestedFunctionDef does `stats.used |= {...}`: the recorded use NODE of an
+                # already used name is replaced by the read inside the nested function (location only)
+                used[e[1]] = used[e[1]] + [q for q in e[2] if q not in used[e[1]]]
         else:
             if e[2][0] == "copy" and e[2][1] not in assigned and e[2][1] not in used:
                 used[e[2][1]] = None     # position filled by the preceding explicit use event
